@@ -1,0 +1,42 @@
+// Copyright 2020-2025 Buf Technologies, Inc.
+//
+// Licensed under the Apache License, Version 2.0 (the "License");
+// you may not use this file except in compliance with the License.
+// You may obtain a copy of the License at
+//
+//      http://www.apache.org/licenses/LICENSE-2.0
+//
+// Unless required by applicable law or agreed to in writing, software
+// distributed under the License is distributed on an "AS IS" BASIS,
+// WITHOUT WARRANTIES OR CONDITIONS OF ANY KIND, either express or implied.
+// See the License for the specific language governing permissions and
+// limitations under the License.
+
+//go:build verif
+
+package breaking
+
+// Contracts for the gocv verifier (see /verif/DESIGN.md), author ca-r4f. Comment-only.
+//
+// C20 "a different non-zero status for operational errors": exactly one of --against / --against-registry must be given;
+// any other combination is refused before anything is built (so it cannot end in status 0 or 100), a valid one is accepted.
+//@ func validateFlags(flags) (err)
+//@   property C20
+//@   ensures exactly-one-against-source: (err == nil) <==> ((flags.Against != "") != flags.AgainstRegistry)
+//@   canary ensures err == nil
+//@   canary ensures err != nil
+//
+// --limit-to-input-files: "the against input contains only the files in the input": the paths handed on as the target paths
+// of the against input are exactly the external paths of the files of the input images - none missing, nothing else - and
+// computing them cannot fail.
+//@ func getExternalPathsForImages(images) (r, err)
+//@   property C20
+//@   ensures never-fails: err == nil
+//@   ensures only-input-files: forall j int :: 0 <= j && j < len(r) ==> (exists a int, b int :: 0 <= a && a < len(images) && 0 <= b && b < len(images[a].Files()) && images[a].Files()[b].ExternalPath() == r[j])
+//@   ensures every-input-file: forall a int, b int :: 0 <= a && a < len(images) && 0 <= b && b < len(images[a].Files()) ==> (exists j int :: 0 <= j && j < len(r) && r[j] == images[a].Files()[b].ExternalPath())
+//@   loop 0 invariant set: externalPaths != nil
+//@   loop 0 invariant only: forall k string :: k in externalPaths ==> (exists a int, b int :: 0 <= a && a < $i && 0 <= b && b < len(images[a].Files()) && images[a].Files()[b].ExternalPath() == k)
+//@   loop 0 invariant every: forall a int, b int :: 0 <= a && a < $i && 0 <= b && b < len(images[a].Files()) ==> images[a].Files()[b].ExternalPath() in externalPaths
+//@   loop 1 invariant set: externalPaths != nil
+//@   loop 1 invariant only: forall k string :: k in externalPaths ==> (exists a int, b int :: 0 <= a && a <= $i0 && 0 <= b && b < ite(a == $i0, $i1, len(images[a].Files())) && images[a].Files()[b].ExternalPath() == k)
+//@   loop 1 invariant every: forall a int, b int :: 0 <= a && a <= $i0 && 0 <= b && b < ite(a == $i0, $i1, len(images[a].Files())) ==> images[a].Files()[b].ExternalPath() in externalPaths
